@@ -147,6 +147,7 @@ structure Sound (cfg : Cfg) : Prop where
   refundSeq : cfg.refundSeq = true
   deleteReports : cfg.deleteReports = true
   errPropagates : cfg.refundErrPropagates = true
+  ackAgrees : cfg.ackAgrees = true
 
 theorem inv_send (c : Ctl) (l : Ch) (p : Pkt) (key : Option (Ch × Seq)) (h : Inv c)
     (hkey : key = none ∨ key = some (l, nextSeq c l))
@@ -502,6 +503,107 @@ theorem doSend_inv (cfg : Cfg) (hs : Sound cfg) (s : State) (l : Ch) (sender : A
       simp only at hev hA
       simp [sendKey, hev, hA, hs.sendSetsRel, hs.sendKeyOwn]
 
+/-! ## acknowledgements as they are on the wire -/
+
+theorem mem_allWires (w : AckWire) : w ∈ AckWire.all := by
+  cases w with
+  | result b => cases b <;> simp [AckWire.all]
+  | error b => cases b <;> simp [AckWire.all]
+  | unset => simp [AckWire.all]
+  | undecodable => simp [AckWire.all]
+
+/-- what `ackAgrees` says about one acknowledgement -/
+theorem ackAgrees_at (cfg : Cfg) (hag : cfg.ackAgrees = true) (w : AckWire) (b : Bool) (ha : cfg.appRefunds w = some b) :
+    cfg.ackAct w = if b then .refund else .after := by
+  have := List.all_eq_true.1 hag w (mem_allWires w)
+  rw [ha] at this
+  cases b with
+  | true => simpa using this
+  | false => simpa using this
+
+/-- when the two decisions agree, an acknowledgement on the wire is the transfer application's refund followed by the
+refund hook, or the success clean-up -/
+theorem settleAckState_agree (cfg : Cfg) (hag : cfg.ackAgrees = true) (s : State) (l : Ch) (seq : Seq) (p : Pkt) (w : AckWire) :
+    settleAckState cfg s l seq p w =
+      match cfg.appRefunds w with
+      | none => none
+      | some true => refundState cfg s l seq p true
+      | some false => some { s with ctl := ackOkCtl { cfg with ackOkCallsAfter := true } s.ctl (l, seq) p } := by
+  unfold settleAckState
+  cases ha : cfg.appRefunds w with
+  | none => rfl
+  | some b =>
+    have := ackAgrees_at cfg hag w b ha
+    cases b with
+    | true => simp only [this, ↓reduceIte, settleBy]
+    | false => simp only [this, Bool.false_eq_true, ↓reduceIte, settleBy]
+
+theorem cfg_after_eq (cfg : Cfg) (h : cfg.ackOkCallsAfter = true) : { cfg with ackOkCallsAfter := true } = cfg := by
+  cases cfg
+  simp only at h
+  subst h
+  rfl
+
+/-- … and, when the canonical shapes are wired as they should, it IS the settlement at the mode it is classified as -/
+theorem settleAckState_mode (cfg : Cfg) (hag : cfg.ackAgrees = true) (hA : cfg.ackOkCallsAfter = true)
+    (hE : cfg.ackErrRefunds = true) (s : State) (l : Ch) (seq : Seq) (p : Pkt) (w : AckWire) :
+    settleAckState cfg s l seq p w =
+      match cfg.appRefunds w with
+      | none => none
+      | some b => settleState cfg s l seq p (if b then .ackErr else .ackOk) := by
+  rw [settleAckState_agree cfg hag]
+  cases ha : cfg.appRefunds w with
+  | none => rfl
+  | some b =>
+    cases b with
+    | true => simp [settleState, hE]
+    | false => simp [settleState, cfg_after_eq cfg hA]
+
+/-- the whole step: an acknowledgement on the wire that the codec accepts is the step of the mode it is classified as -/
+theorem stepWith_ackw (cfg : Cfg) (hag : cfg.ackAgrees = true) (hA : cfg.ackOkCallsAfter = true)
+    (hE : cfg.ackErrRefunds = true) (s : State) (l : Ch) (seq : Seq) (w : AckWire) (b : Bool)
+    (ha : cfg.appRefunds w = some b) :
+    stepWith cfg s (.ackw l seq w) = stepWith cfg s (.settle l seq (if b then .ackErr else .ackOk)) := by
+  simp only [stepWith, settleW, settle]
+  cases hl : lookup (l, seq) s.ctl.commits with
+  | none => rfl
+  | some p =>
+    simp only
+    rw [settleAckState_mode cfg hag hA hE, ha]
+
+/-- bytes the codec rejects (or an acknowledgement no path of the application applies to): the callback fails, nothing
+changes, the packet stays committed -/
+theorem stepWith_ackw_undecodable (cfg : Cfg) (s : State) (l : Ch) (seq : Seq) (w : AckWire)
+    (ha : cfg.appRefunds w = none) :
+    stepWith cfg s (.ackw l seq w) = (s, .stuck s.ctl.rel) ∨ stepWith cfg s (.ackw l seq w) = (s, .noop s.ctl.rel) := by
+  simp only [stepWith, settleW]
+  cases hl : lookup (l, seq) s.ctl.commits with
+  | none => right; rfl
+  | some p => left; simp [settleAckState, ha]
+
+theorem settleW_inv (cfg : Cfg) (hs : Sound cfg) (s : State) (l : Ch) (seq : Seq) (w : AckWire) (h : Inv s.ctl) :
+    Inv (settleW cfg s l seq w).1.ctl := by
+  unfold settleW
+  cases hl : lookup (l, seq) s.ctl.commits with
+  | none => exact h
+  | some p =>
+    simp only
+    cases hst : settleAckState cfg s l seq p w with
+    | none => exact h
+    | some s' =>
+      simp only
+      rw [settleAckState_agree cfg hs.ackAgrees] at hst
+      cases ha : cfg.appRefunds w with
+      | none => rw [ha] at hst; cases hst
+      | some b =>
+        rw [ha] at hst
+        cases b with
+        | true => exact refundState_inv cfg hs s s' l seq p true h (lookup_mem hl) hst
+        | false =>
+          simp only [Option.some.injEq] at hst
+          subst hst
+          exact inv_ackOk { cfg with ackOkCallsAfter := true } hs.ackOkChan s.ctl _ p h (lookup_mem hl)
+
 theorem step_inv (cfg : Cfg) (hs : Sound cfg) (s : State) (op : Op) (h : Inv s.ctl) :
     Inv (stepWith cfg s op).1.ctl := by
   cases op with
@@ -531,6 +633,8 @@ theorem step_inv (cfg : Cfg) (hs : Sound cfg) (s : State) (op : Op) (h : Inv s.c
   | send l sender t amt => exact doSend_inv cfg hs s l sender t amt true h
   | csend l sender t amt => exact doSend_inv cfg hs s l sender t amt false h
   | settle l seq mode => exact settle_inv cfg hs s l seq mode h
+  | ackw l seq w => exact settleW_inv cfg hs s l seq w h
+  | nop => exact h
   | bad => exact h
 
 theorem run_inv (cfg : Cfg) (hs : Sound cfg) (ops : List Op) (s : State) (h : Inv s.ctl) :
@@ -565,6 +669,7 @@ structure Removes (cfg : Cfg) : Prop where
   refundSeq : cfg.refundSeq = true
   deleteReports : cfg.deleteReports = true
   errPropagates : cfg.refundErrPropagates = true
+  ackAgrees : cfg.ackAgrees = true
 
 theorem refundState_rel (cfg : Cfg) (hsees : cfg.refundSees = true) (hch : cfg.refundChan = .src)
     (hseq : cfg.refundSeq = true) (hrep : cfg.deleteReports = true) (hp : cfg.refundErrPropagates = true)
@@ -1429,6 +1534,24 @@ theorem life_step (cfg : Cfg) (hR : Removes cfg) (s : State) (op : Op) (hi : Inv
       cases hst : settleState cfg s l seq p mode with
       | none => exact h
       | some s' => exact life_settleState cfg hR s s' l seq p mode h hst
+  | ackw l seq w =>
+    have hA : cfg.ackOkCallsAfter = true := by
+      have := hR.ackOkRemoves
+      simp only [Cfg.ackOkRemoves, Bool.and_eq_true] at this
+      exact this.1
+    simp only [stepWith, settleW]
+    cases hl : lookup (l, seq) s.ctl.commits with
+    | none => exact h
+    | some p =>
+      simp only
+      cases hst : settleAckState cfg s l seq p w with
+      | none => exact h
+      | some s' =>
+        rw [settleAckState_mode cfg hR.ackAgrees hA hR.ackErrRefunds] at hst
+        cases ha : cfg.appRefunds w with
+        | none => rw [ha] at hst; cases hst
+        | some b => rw [ha] at hst; exact life_settleState cfg hR s s' l seq p _ h hst
+  | nop => exact h
   | bad => exact h
 
 theorem run_life (cfg : Cfg) (hs : Sound cfg) (hR : Removes cfg) (ops : List Op) (s : State) (hi : Inv s.ctl) (h : Life s.ctl) :
